@@ -192,3 +192,14 @@ Inductive oclosure_run (succ : N -> list N) (known : N -> bool) : list N -> list
 | ocr_visit : forall x pend pend' seen r,
     Permutation pend (x :: pend') -> ~ In x seen -> known x = true ->
     oclosure_run succ known (succ x ++ pend') (x :: seen) r -> oclosure_run succ known pend seen r.
+
+(* ------------------------------------------------------------------ *)
+(* Short-circuit evaluation: all(p(x) for x in s) calls p on a PREFIX of the iteration
+   order and stops at the first failure.  If p has a side effect (in
+   _maybe_show_missing_f_error each lookup marks the name as accessed), the set of
+   elements on which the effect happened is observable. *)
+Fixpoint all_trace (p : N -> bool) (s : list N) : list N :=
+  match s with
+  | [] => []
+  | x :: t => if p x then x :: all_trace p t else [x]
+  end.
